@@ -560,7 +560,8 @@ theorem classValuesOk_resize (n : Nat) (feats : List Feature) (t : Nat) : ClassV
   cases hv
 
 theorem classValuesOk_set (st st' : Storage) (h : st.WF) (hok : ClassValuesOk st) (s f : Nat) (v : List Int)
-    (hset : st.set s f v = some st') (hv : ∀ x ∈ v, 0 ≤ x) : ClassValuesOk st' := by
+    (hset : st.set s f v = some st')
+    (hv : ∀ feat, st.feats[f]? = some feat → feat.isClass = true → ∀ x ∈ v, 0 ≤ x) : ClassValuesOk st' := by
   obtain ⟨hsamp, hfeats, _, _⟩ := set_schema st st' s f v hset
   have hwf' := set_wf st st' h s f v hset
   intro f' feat hf' hcls s' v' hv' x hx
@@ -569,11 +570,13 @@ theorem classValuesOk_set (st st' : Storage) (h : st.WF) (hok : ClassValuesOk st
   by_cases hs' : s' < st.samples
   · rw [storage_refines' st st' h s f v hset f' s' hflt hs'] at hv'
     split at hv'
-    · cases hv'; exact hv x hx
+    · rename_i hsame
+      cases hv'
+      rw [hsame.1] at hf'
+      exact hv feat hf' hcls x hx
     · exact hok f' feat hf' hcls s' v' hv' x hx
   · -- outside the sample range nothing is stored
     exfalso
-    have hlen := stored_length_all st' hwf' f' s' feat v' (by rw [hfeats]; exact hf') hv'
     have hrow : st'.row f' s' = none := by
       obtain ⟨r, hr⟩ := ranges_some st' hwf' f' feat (by rw [hfeats]; exact hf')
       obtain ⟨t, ht⟩ := pool_some st' hwf' f' feat (by rw [hfeats]; exact hf')
@@ -586,5 +589,43 @@ theorem classValuesOk_set (st st' : Storage) (h : st.WF) (hok : ClassValuesOk st
     unfold Storage.stored at hv'
     rw [hrow] at hv'
     split at hv' <;> cases hv'
+
+/-- a whole `do_load`: `set` after `set` keeps the invariants -/
+theorem sets_wf : ∀ (writes : List (Nat × Nat × List Int)) (st st' : Storage), st.WF → ClassValuesOk st →
+    writes.foldlM (fun st w => st.set w.1 w.2.1 w.2.2) st = some st' →
+    (∀ w ∈ writes, ∀ feat, st.feats[w.2.1]? = some feat → feat.isClass = true → ∀ x ∈ w.2.2, 0 ≤ x) →
+    st'.WF ∧ ClassValuesOk st' ∧ st'.feats = st.feats
+  | [], st, st', h, hok, hf, _ => by
+    simp only [List.foldlM_nil, Option.pure_def, Option.some.injEq] at hf
+    subst hf; exact ⟨h, hok, rfl⟩
+  | w :: ws, st, st', h, hok, hf, hv => by
+    simp only [List.foldlM_cons, Option.bind_eq_bind] at hf
+    cases hset : st.set w.1 w.2.1 w.2.2 with
+    | none => simp [hset] at hf
+    | some st1 =>
+      simp only [hset, Option.bind_some] at hf
+      have hfe := (set_schema st st1 _ _ _ hset).2.1
+      have := sets_wf ws st1 st' (set_wf st st1 h _ _ _ hset)
+        (classValuesOk_set st st1 h hok _ _ _ hset (hv w List.mem_cons_self)) hf
+        (fun w' hw' feat hfeat => hv w' (List.mem_cons_of_mem _ hw') feat (by rw [← hfe]; exact hfeat))
+      exact ⟨this.1, this.2.1, this.2.2.trans hfe⟩
+
+/-- generator after generator: `add` keeps the invariants and leaves every flag cleared -/
+theorem adds_wf : ∀ (gens : List (GKind × List Nat × List Nat)) (ds ds' : Dataset), ds.WF →
+    (∀ g ∈ ds.gens, ∀ i, g.infos.getD i 0 = 0) →
+    gens.foldlM (fun (ds : Dataset) k => ds.add k.1 k.2.1 k.2.2) ds = some ds' →
+    ds'.WF ∧ ds'.st = ds.st ∧ ∀ g ∈ ds'.gens, ∀ i, g.infos.getD i 0 = 0
+  | [], ds, ds', h, hz, hf => by
+    simp only [List.foldlM_nil, Option.pure_def, Option.some.injEq] at hf
+    subst hf; exact ⟨h, rfl, hz⟩
+  | k :: ks, ds, ds', h, hz, hf => by
+    simp only [List.foldlM_cons, Option.bind_eq_bind] at hf
+    cases hadd : ds.add k.1 k.2.1 k.2.2 with
+    | none => simp [hadd] at hf
+    | some ds1 =>
+      simp only [hadd, Option.bind_some] at hf
+      obtain ⟨h1, h2, h3⟩ := add_wf ds ds1 _ _ _ h hadd
+      obtain ⟨i1, i2, i3⟩ := adds_wf ks ds1 ds' h1 (h3 hz) hf
+      exact ⟨i1, i2.trans h2, i3⟩
 
 end NanoVerif.Dataset
